@@ -188,7 +188,10 @@ def send_layer_receive(self: Obj("AxolotlSendLayer"), protocolTreeNode: Obj("Pro
     ensures(implies(not is_reply(old(self.iqRegistry), protocolTreeNode) and protocolTreeNode.tag != "receipt", n_events("toUpper") == 0 and n_events("toLower") == 0))
     # a receipt: retry request for a message we still hold -> one ack, one key fetch, nothing upward; any other receipt -> upward once
     ensures(implies(not is_reply(old(self.iqRegistry), protocolTreeNode) and protocolTreeNode.tag == "receipt",
-                    n_events("getEnqueuedMessageNode") == 1 and event_arg("getEnqueuedMessageNode", 0, 0) == attr(protocolTreeNode, "id")))
+                    n_events("getEnqueuedMessageNode") == 1 and event_arg("getEnqueuedMessageNode", 0, 0) == attr(protocolTreeNode, "id")
+                    # the original of a GROUP message stays queued whatever the receipt says: every other participant may still ask for a retry;
+                    # the original of a 1:1 message is released by its first receipt
+                    and event_arg("getEnqueuedMessageNode", 0, 1) == (attr(protocolTreeNode, "participant") is not None)))
     ensures(implies(not is_reply(old(self.iqRegistry), protocolTreeNode) and protocolTreeNode.tag == "receipt"
                     and truthy(event_result("getEnqueuedMessageNode", 0)) and attr(protocolTreeNode, "type") == "retry",
                     n_events("toLower") == 1 and n_events("getKeysFor") == 1 and n_events("toUpper") == 0
